@@ -10,8 +10,12 @@ exec 9>.work/lock
 flock 9
 if ! git -C /repo apply --check "$PATCH" 2>/dev/null; then echo "patch does not apply"; exit 3; fi
 git -C /repo apply "$PATCH"
+# evidence and replay files of a mutated run go to .work/mutated/, never over the real evidence
+EV="evidence/$PROP.json"; SAVE=".work/evidence.$PROP.saved"; rm -f "$SAVE"; [ -f "$EV" ] && cp "$EV" "$SAVE"
 VERIF_LOCK_HELD=1 ./check "$PROP" "$@"
 rc=$?
+mkdir -p .work/mutated; [ -f "$EV" ] && cp "$EV" ".work/mutated/$PROP.json"
+if [ -f "$SAVE" ]; then mv "$SAVE" "$EV"; fi
 git -C /repo apply -R "$PATCH" || echo "WARNING: could not revert $PATCH"
 # the generated Lean files were regenerated from the mutated source: regenerate them from the restored tree
 python3 tools/translate.py > /dev/null 2>&1
